@@ -409,10 +409,15 @@ def _pow(ctx, case):
     if pk in ('pow_pyint', 'pow_npint'):
         n = int(rng.integers(-3, 6)) if rng.random() < 0.6 else int(rng.integers(6, 14))          # exponents beyond the small ones too
         n = case['params'].get('n', n)
+        big = 'n' not in case['params'] and D <= 6 and case['seed'] % 4 == 0
+        if big:
+            n = int(rng.choice([64, 65, 66, 100, 129]))          # exponents beyond any small-case table
         xd = _mk_utpm_data(rng, D, P, xs, data, n < 0)
+        if big:
+            xd[0] = np.where(rng.random(size=xd[0].shape) < 0.5, 0.0, np.clip(xd[0].real, -1.1, 1.1))          # vanishing base coefficients: x ** n = O(t^n)
         # integer exponents in every spelling NumPy accepts
         e = [n, bool(n) if n in (0, 1) else n][int(rng.integers(2))] if pk == 'pow_pyint' else \
-            [np.int64(n), np.int32(n), np.int8(n), np.array(n), np.array(n, dtype=np.int16)][int(rng.integers(5))]
+            [np.int64(n), np.int32(n), np.int8(n) if abs(n) < 128 else np.int16(n), np.array(n), np.array(n, dtype=np.int16)][int(rng.integers(5))]
         if n >= 0 and rng.random() < 0.25:
             # a non-negative integer exponent written as a float: x ** 2.0 is the polynomial x ** 2, also at base points with zeros
             e = [float(n), np.float64(n), np.float32(n)][int(rng.integers(3))]
